@@ -4,7 +4,8 @@ passes without the change) into /verif/seeded/<id>-<k>/ with the outcome of runn
 import json, os, re, shutil, glob, subprocess
 head = subprocess.run(['git','-C','/repo','rev-parse','--short','HEAD'],capture_output=True,text=True).stdout.strip()
 rows=[]
-for d in sorted(glob.glob('/tmp/seed/C*-out/[12]')):
+ROOT=os.environ.get('SEEDROOT','/tmp/seed'); OFFSET=int(os.environ.get('SEED_OFFSET','0'))
+for d in sorted(glob.glob(ROOT+'/C*-out/[12]')):
     log=os.path.join(d,'verify.log')
     if not os.path.exists(log): continue
     txt=open(log).read()
@@ -12,7 +13,7 @@ for d in sorted(glob.glob('/tmp/seed/C*-out/[12]')):
     if not m: continue
     result=m.group(1).strip()
     meta=json.load(open(os.path.join(d,'meta.json')))
-    pid=meta['property']; k=os.path.basename(d)
+    pid=meta['property']; k=int(os.path.basename(d))+OFFSET
     name=f"{pid}-{k}"
     if not (result.startswith('caught-by') or result=='MISSED'):
         rows.append((name,result,'not kept')); continue
@@ -28,6 +29,14 @@ for d in sorted(glob.glob('/tmp/seed/C*-out/[12]')):
         'checks_run':[{'check':c,'tier':t,'exit':int(e),'violations':int(v),'first_keys':re.findall(r'key=(\S+)',rest)[:3]} for c,t,e,v,rest in checks],
         'outcome':result,
     }
+    fp=os.path.join(d,'verify.firstpass.log')
+    if os.path.exists(fp):
+        m2=re.search(r'^RESULT (.*)$',open(fp).read(),re.M)
+        if m2: meta['verified']['first_pass_outcome']=m2.group(1).strip()
+    if os.path.exists(os.path.join(d,'patch.orig.diff')):
+        shutil.copy(os.path.join(d,'patch.orig.diff'),dst)
+        meta['verified']['note']='patch.diff is the sub-agent\'s change rebased onto a later fix commit of /repo; patch.orig.diff is what was delivered'
+    meta['seeding_round']=1 if OFFSET==0 else 2
     json.dump(meta,open(os.path.join(dst,'meta.json'),'w'),indent=1)
     rows.append((name,result,meta.get('title','')[:70]))
 for r in rows: print(*r,sep=' | ')
